@@ -40,6 +40,9 @@ var c04Sets = []c04Set{
 	{"null2", 2, []c04Tuple{{nil, "x"}, {"", "x"}, {"\x00NULL", "x"}}, false},
 	{"comma2", 2, []c04Tuple{{"a,b", "c"}, {"a", "b,c"}, {"1", "2"}}, false},
 	{"num2", 2, []c04Tuple{{1, 1.5}, {1, -1}, {0, 1}}, false},
+	{"bignum1", 1, []c04Tuple{{16777216.0}, {16777217.0}, {9007199254740992.0}, {0.1}}, false},
+	{"bignum2", 2, []c04Tuple{{1700000000123.0, "x"}, {1700000000124.0, "x"}, {1700000000123.0, "y"}}, false},
+	{"bigint1", 1, []c04Tuple{{int64(9007199254740993)}, {int64(9007199254740992)}, {int64(-9007199254740993)}}, false},
 	{"nullnull2", 2, []c04Tuple{{nil, nil}, {"", ""}, {"a", nil}}, false},
 	{"pipe3", 3, []c04Tuple{{"a|b", "c", "d"}, {"a", "b|c", "d"}, {"a", "b", "c|d"}}, false},
 	{"empty3", 3, []c04Tuple{{"a", "", "b"}, {"a", "b", ""}, {"", "a", "b"}}, false},
@@ -115,9 +118,15 @@ func c04GroupKey(set c04Set, t c04Tuple) string {
 				v = strings.ToUpper(v)
 			}
 			fmt.Fprintf(&sb, "S%d:%s;", len(v), v)
+		case int, int64:
+			fmt.Fprintf(&sb, "I%d;", v)
 		default:
 			f, _ := num(v)
-			fmt.Fprintf(&sb, "F%v;", f)
+			if f == float64(int64(f)) && f < 9e15 && f > -9e15 {
+				fmt.Fprintf(&sb, "I%d;", int64(f)) // integral floats and ints of the same value are one group
+			} else {
+				fmt.Fprintf(&sb, "F%v;", f)
+			}
 		}
 	}
 	return sb.String()
@@ -217,7 +226,7 @@ func c04Feed(set c04Set, kind string, seq []int) func(e *Env) {
 			var st c04Tuple
 			for i := 0; i < set.Cols; i++ {
 				if _, isNum := num(set.Tuples[0][i]); isNum {
-					st = append(st, 424242)
+					st = append(st, 424242.5)
 				} else {
 					st = append(st, "zz-sentinel")
 				}
